@@ -169,7 +169,7 @@ def run(tier, replay=None):
                   "tree": {n: [({"t": "inc", "f": m.group(1)} if (m := re.match(r'^\s*\.include "([^"]+)"', ln)) else {"t": "l", "f": ""})
                                for ln in t.split("\n")] for n, t in texts.items()},
                   "lib_ev": a["ev"], "lib": [], "flat": [], "lib_twin": [], "cli_ev": "ok", "cli_all": [], "cli_base": [],
-                  "cli_hidden": 0, "cli_twin": []}
+                  "cli_hidden": 0, "cli_twin": [], "cli_af": [], "cli_af_hidden": 0}
             if a["ev"] == "obs":
                 ev["lib"] = [diag(it, a["item_files"]) for it in a["items"]]
             if bb["ev"] == "obs":
@@ -185,13 +185,17 @@ def run(tier, replay=None):
                     ev["cli_base"] = from_compact(oc, d)
                     h = re.search(r"(\d+) diagnostics? found in other files", oc)
                     ev["cli_hidden"] = int(h.group(1)) if h else 0
+                    oa = cli(d, "--compact", "--no-color", "--all-files") or ""
+                    ev["cli_af"] = from_compact(oa, d)
+                    ha = re.search(r"(\d+) diagnostics? found in other files", oa)
+                    ev["cli_af_hidden"] = int(ha.group(1)) if ha else 0
                     if info["fault"] != "none":
                         ot = cli(dt, "--json")
                         ev["cli_twin"] = from_json(ot, dt) if ot else []
                 except (ValueError, KeyError):
                     ev["cli_ev"] = "bad-json"
             # the IO fault reads differently through the two readers: normalise the message of reader errors to its kind
-            for kk in ("lib", "cli_all", "cli_base", "lib_twin", "cli_twin", "flat"):
+            for kk in ("lib", "cli_all", "cli_base", "cli_af", "lib_twin", "cli_twin", "flat"):
                 for x in ev[kk]:
                     if x["kind"] in ("File not found", "IO Error", "Cyclic dependency"):
                         x["title"] = x["kind"]
@@ -243,6 +247,8 @@ def run(tier, replay=None):
                 cases.append(({"fault": "cycle-through-subdirectory"}, info, texts))
     for e in evs:
         e.setdefault("cli_only", False)
+        e.setdefault("cli_af", [])
+        e.setdefault("cli_af_hidden", 0)
     v, ress = validate_chunks("Trace_Include", evs, wd, "inc.chunk", chunk=3000, heap="8g")
     for r in ress:
         out.add_tlc(r)
